@@ -155,6 +155,46 @@ pub enum Documented {
     },
 }
 
+/// An uninhabited type.
+#[derive(TypeInfo)]
+pub enum Never {}
+
+pub mod dup_a {
+    #[derive(scale_info::TypeInfo)]
+    pub struct Same {
+        pub a: u8,
+    }
+}
+pub mod dup_b {
+    #[derive(scale_info::TypeInfo)]
+    pub struct Same {
+        pub a: u8,
+    }
+}
+pub mod l1 {
+    pub mod l2 {
+        pub mod l3 {
+            pub mod l4 {
+                pub mod l5 {
+                    pub mod l6 {
+                        pub mod r#type {
+                            #[derive(scale_info::TypeInfo)]
+                            pub struct FarAway(pub super::super::super::super::super::super::super::Never);
+                        }
+                    }
+                }
+            }
+        }
+    }
+}
+
+#[derive(TypeInfo)]
+pub enum Disc {
+    A = 3,
+    B = 200,
+    C = 255,
+}
+
 #[derive(TypeInfo)]
 pub struct Wrappers {
     pub a: Box<Named>,
@@ -218,6 +258,36 @@ nest32!(P576, Option, P544);
 /// registration) and are drawn rarely.
 pub fn heavy_from() -> usize {
     CORPUS.iter().position(|e| e.name == "Vec^160<u16>").expect("heavy entries present")
+}
+
+/// Two distinct types with the same name in the same function: identical
+/// path, identical `core::any::type_name`, different definitions.
+fn homonym(which: usize) -> MetaType {
+    let a = {
+        #[derive(TypeInfo)]
+        struct Settings {
+            #[allow(dead_code)]
+            a: u8,
+        }
+        MetaType::new::<Settings>()
+    };
+    let b = {
+        #[derive(TypeInfo)]
+        struct Settings {
+            #[allow(dead_code)]
+            b: u16,
+        }
+        MetaType::new::<Settings>()
+    };
+    let c = {
+        #[derive(TypeInfo)]
+        struct Settings {
+            #[allow(dead_code)]
+            a: u8,
+        }
+        MetaType::new::<Settings>()
+    };
+    [a, b, c][which]
 }
 
 pub struct CorpusEntry {
@@ -362,6 +432,22 @@ pub static CORPUS: &[CorpusEntry] = &[
     entry!("Replaced", Replaced, named("Replaced")),
     entry!("Documented", Documented, named("Documented")),
     entry!("Wrappers", Wrappers, named("Wrappers")),
+    CorpusEntry { name: "Settings#a", meta: || homonym(0), tx: || named("Settings#a") },
+    CorpusEntry { name: "Settings#b", meta: || homonym(1), tx: || named("Settings#b") },
+    CorpusEntry { name: "Settings#c (same definition as #a)", meta: || homonym(2), tx: || named("Settings#c") },
+    entry!("Never", Never, named("Never")),
+    entry!("dup_a::Same", dup_a::Same, named("dup_a::Same")),
+    entry!("dup_b::Same", dup_b::Same, named("dup_b::Same")),
+    entry!("FarAway", l1::l2::l3::l4::l5::l6::r#type::FarAway, named("FarAway")),
+    entry!("Disc", Disc, named("Disc")),
+    entry!("Arc<str>", Arc<str>, app("Arc", vec![named("str")])),
+    entry!("Rc<[u8]>", Rc<[u8]>, app("Rc", vec![app("Slice", vec![named("u8")])])),
+    entry!("Box<[String]>", Box<[String]>, app("Box", vec![app("Slice", vec![named("String")])])),
+    entry!("PhantomData<fn(u8)->u8>", PhantomData<fn(u8) -> u8>, app("PhantomData", vec![named("fn(u8)->u8")])),
+    entry!("Option<Never>", Option<Never>, app("Option", vec![named("Never")])),
+    entry!("[Never;0]", [Never; 0], app("Array:0", vec![named("Never")])),
+    entry!("Compact<Compact-free u64>", scale::Compact<u64>, app("Compact", vec![named("u64")])),
+    entry!("Vec<PhantomData<u8>>", Vec<PhantomData<u8>>, app("Vec", vec![app("PhantomData", vec![named("u8")])])),
     // heavy entries last (see heavy_from)
     entry!("Vec^160<u16>", V160, named("V160")),
     entry!("Option^576<i8>", P576, named("P576")),
